@@ -435,3 +435,6 @@ fire("r2-weightnorm-absolute-axis", ["C12", "C11", "C09"], "flowjax/wrappers.py"
 fire("r2-mvn-covariance-transposed", "C05", D, "        return cholesky @ cholesky.T", "        return cholesky.T @ cholesky", "C05.cov")
 fire("r2-vmap-accepts-both", "C13", B + "jax_transforms.py",
      "        if in_axes is not None and axis_size is not None:\n            raise ValueError(\"Cannot specify both in_axes and axis_size.\")\n", "", "C13.ctor")
+
+fire("c03-numpyro-logdet-sign", "C03", "flowjax/experimental/numpyro.py", "                t_log_det = -t_log_det\n", "", "C03.numpyro")
+fire("c06-hidden-randomness", "C06", D, "        return jr.normal(key, self.shape)", "        import random\n        return jr.normal(key, self.shape) + random.random()", "C06.det")
